@@ -36,7 +36,8 @@ def ob_neighbour_frame(k0: int, t0: int, g0: int, px: bool, kx: int, tx: int, gx
     pre: SHAPE in (1, 4) or not fa
     pre: SHAPE in (2, 3) or (fv1 == 0 and g0 == 0 and gx == 0)
     pre: THOROUGH or until is None or SHAPE == 0
-    pre: THOROUGH or SHAPE not in (2, 3) or (g0 in (1, 2) and not px)
+    pre: THOROUGH or SHAPE not in (2, 3) or (g0 in (1, 2) and not px and xid and fv1 < 2)
+    pre: SHAPE in (0, 3, 4) or (k0 == 0 and kx == 0)
     pre: THOROUGH or SHAPE != 3 or (fv1 < 2 and kx == k0)
     post: _.startswith("ok")
     """
@@ -55,8 +56,8 @@ def ob_neighbour_frame(k0: int, t0: int, g0: int, px: bool, kx: int, tx: int, gx
 
 
 @obligation(funcs=["storage.kv.planner", "storage.kv.execute_one_plan", "storage.kv.Index.scanner", "storage.kv.matcher"],
-            params=range(3), timeout=(400, 1800),
-            bounds="store {e0, e1} (kinds {1,2}, created_at symbolic, one tag from 4); PARAM 0: kinds filter vs the same filter "
+            params=range(5), timeout=(400, 1800),
+            bounds="store {e0, e1} (kinds {1,2}, created_at symbolic, one tag from 4); PARAM 0/3/4: kinds filter vs the same filter "
                    "plus a #t condition / plus until / plus since; PARAM 1: #t filter vs plus kinds; PARAM 2: union: kinds [2,1] vs "
                    "[2] and [1], #t [a,b] vs [a] and [b]")
 def ob_monotone_union(k0: int, t0: int, g0: int, k1: int, t1: int, g1: int, fk1: int, fv1: int, extra: int,
@@ -65,7 +66,8 @@ def ob_monotone_union(k0: int, t0: int, g0: int, k1: int, t1: int, g1: int, fk1:
     pre: 0 <= k0 < 2 and 0 <= k1 < 2 and 1 <= t0 <= 200 and 1 <= t1 <= 200
     pre: 0 <= g0 < 4 and 0 <= g1 < 4 and 0 <= fk1 < 2 and 0 <= fv1 < 3 and 0 <= extra < 3 and 0 <= bound <= 200
     pre: PARAM != 1 or extra == 0
-    pre: THOROUGH or PARAM == 2 or (g0 < 3 and g1 < 2 and fv1 < 2 and (extra == 0 or bound in (0, 50)))
+    pre: PARAM not in (0, 3, 4) or extra == {0: 0, 3: 1, 4: 2}[PARAM]
+    pre: THOROUGH or PARAM == 2 or (g0 < 3 and g1 < 2 and fv1 < 2 and k1 == 0 and (extra == 0 or bound in (0, 50)))
     pre: PARAM != 2 or (extra < 2 and bound == 0 and fk1 == 0 and fv1 == 0)
     post: _.startswith("ok")
     """
@@ -73,7 +75,7 @@ def ob_monotone_union(k0: int, t0: int, g0: int, k1: int, t1: int, g1: int, fk1:
     e0 = E.event(0, False, k0, t0, g0)
     e1 = E.event(1, False, k1, t1, g1)
     env = E.build_store([e0, e1])
-    if PARAM == 0:
+    if PARAM in (0, 3, 4):
         f, q = E.make_filter(0, fk1, 0, False, False, 0, 0, None, None, 10)
         if extra == 0:
             f2, q2 = E.make_filter(3, fk1, 0, False, False, fv1, 0, None, None, 10)
